@@ -125,6 +125,7 @@ class KMedoids(Medoids):
 
     """
     def __init__(self, dists_fun, dists_options, k=None, initial_medoids=None, show_progress=True):
+        dists_options = dict(dists_options)
         dists_options['compact'] = False
         self.initial_medoids = initial_medoids
         if k is None:
